@@ -45,6 +45,9 @@ Qed.
 Lemma osafe_iret {A} (a : A) L o (Q : A -> Z -> Prop) : Q a o -> osafe (iret a) L o Q.
 Proof. intros H i Ho Hl Hb. cbn. subst o. auto. Qed.
 
+Lemma osafe_iret_eq {A} (a : A) L o : osafe (iret a) L o (fun v o' => v = a /\ o' = o).
+Proof. apply osafe_iret. auto. Qed.
+
 Lemma osafe_ierr {A} c L o (Q : A -> Z -> Prop) : ok_code c -> osafe (ierr c) L o Q.
 Proof. intros H i Ho Hl Hb. cbn. auto. Qed.
 
@@ -153,6 +156,7 @@ Ltac osafe_prim tac :=
     | apply osafe_iseek
     | apply osafe_iskip
     | apply osafe_idump; lia
+    | apply osafe_iret_eq
     | tac ].
 
 Ltac osafe_done :=
@@ -163,16 +167,33 @@ Ltac osafe_done :=
 Ltac osafe_go tac :=
   cbv zeta;
   lazymatch goal with
+  | |- osafe (ibind (if ?c then _ else _) _) _ _ _ => let E := fresh "E" in destruct c eqn:E; osafe_go tac
   | |- osafe (ibind _ _) _ _ _ =>
       eapply osafe_bind; [ osafe_prim tac | let a := fresh "a" in let o' := fresh "o" in let H := fresh "H" in
                                          intros a o' H; cbv beta in H; osafe_destr; osafe_go tac ]
   | |- osafe (iret _) _ _ _ => apply osafe_iret; osafe_done
   | |- osafe (ierr _) _ _ _ => apply osafe_ierr; first [ left; reflexivity | right; reflexivity ]
   | |- osafe (if ?c then _ else _) _ _ _ => let E := fresh "E" in destruct c eqn:E; osafe_go tac
-  | |- _ => idtac
+  | |- osafe _ _ _ _ =>
+      eapply osafe_weaken; [ osafe_prim tac | let a := fresh "a" in let o' := fresh "o" in let H := fresh "H" in
+                                           cbv beta; intros a o' H; osafe_destr; osafe_done ]
   end.
 
-(* ---------------- the `b <- next_byte ;; iskip (-1)` idiom keeps the offset ---------------- *)
+(* one step of osafe_go (for debugging a proof) *)
+Ltac osafe_go1 tac :=
+  cbv zeta;
+  lazymatch goal with
+  | |- osafe (ibind (if ?c then _ else _) _) _ _ _ => let E := fresh "E" in destruct c eqn:E
+  | |- osafe (ibind _ _) _ _ _ =>
+      eapply osafe_bind; [ osafe_prim tac | let a := fresh "a" in let o' := fresh "o" in let H := fresh "H" in
+                                         intros a o' H; cbv beta in H; osafe_destr ]
+  | |- osafe (iret _) _ _ _ => apply osafe_iret; osafe_done
+  | |- osafe (ierr _) _ _ _ => apply osafe_ierr; first [ left; reflexivity | right; reflexivity ]
+  | |- osafe (if ?c then _ else _) _ _ _ => let E := fresh "E" in destruct c eqn:E
+  | |- osafe _ _ _ _ =>
+      eapply osafe_weaken; [ osafe_prim tac | let a := fresh "a" in let o' := fresh "o" in let H := fresh "H" in
+                                           cbv beta; intros a o' H; osafe_destr; osafe_done ]
+  end.
 
 (* ---------------- parsers of Model/Clock.v and Model/Packet.v reused by the units ---------------- *)
 
